@@ -94,4 +94,15 @@ def run(chk, tier, seed):
                          model=want, verdict="ok" if ok else "bad"))
     extra = dict(race_detector=True, concurrent_executions=executions, functions_exercised=sorted(fns),
                  layer3_wall_s=round(time.time() - t0, 1))
+    # a second, independent line of evidence for purity: the functions whose Lean definition is regenerated from their
+    # go/ssa form by tools/ssa2lean4 (for the checks of C01..C18) -- the translator refuses a store into a parameter, a
+    # global or any memory the function did not allocate itself, and its output is a Lean function of the arguments
+    try:
+        ties = json.load(open(os.path.join(chk.ROOT, "ties.json")))["functions"]
+        pure_pkgs = ("bitmap.", "bmtree.", "bitstr.", "bitword.", "sigbits.")
+        extra["functions_with_regenerated_pure_definition"] = sorted(
+            v["name"] for v in ties.values()
+            if v["name"].startswith(pure_pkgs) and "Builder" not in v["name"] and "TailBitmap" not in v["name"])
+    except Exception:
+        pass
     return recs, extra
